@@ -242,6 +242,97 @@ def empty_prims(outdir):
 
 
 # ------------------------------------------------------------------------------------------------
+# code -> spec: record executions of the real crate and validate them against Trace_Api.tla
+# ------------------------------------------------------------------------------------------------
+def record_and_validate(tag, gen, n, count, outdir, base_seed=None, timeout=900, parallel=8):
+    """Records `count` independent traces of `n` driver steps each with generator `gen` (seeds derived from VERIF_SEED)
+    and validates each with TLC.  Returns (events_validated, rejections); a rejection carries the first unmatched event."""
+    os.makedirs(outdir, exist_ok=True)
+    hbin = build_harness()
+    base = seed() if base_seed is None else base_seed
+    jobs = []
+    total_events = 0
+    for i in range(count):
+        sd = base * 1000 + i
+        trace = os.path.join(outdir, f"{tag}_{i}.ndjson")
+        req = trace + ".primreq.json"
+        r = subprocess.run([hbin, "record", "--gen", gen, "--seed", str(sd), "--n", str(n), "--out", trace, "--primreq", req],
+                           stdout=subprocess.PIPE, stderr=subprocess.STDOUT, text=True)
+        if r.returncode != 0:
+            raise ToolError(f"[{tag}] recorder failed: {r.stdout[-2000:]}")
+        total_events += int(r.stdout.strip().splitlines()[-1])
+        prims = trace + ".prims.json"
+        r = subprocess.run([primgen_path(), req, prims], stdout=subprocess.PIPE, stderr=subprocess.STDOUT, text=True)
+        if r.returncode != 0:
+            raise ToolError(f"[{tag}] primgen failed: {r.stdout[-2000:]}")
+        jobs.append((sd, trace, prims))
+    cfg = os.path.join(outdir, f"{tag}.trace.cfg")
+    write_cfg(cfg, {}, postcondition="Accepted")
+    running = []
+    results = []
+
+    def start(job):
+        sd, trace, prims = job
+        meta = trace + ".tlc"
+        shutil.rmtree(meta, ignore_errors=True)
+        cmd = tlc_cmd(os.path.join(SPEC, "Trace_Api.tla"), cfg, meta, 1, xmx="3g", xss="512m", deque=True)
+        env = dict(os.environ, TRACE=trace, PRIMS=prims, LENUNIT=len_unit())
+        logf = open(trace + ".tlc.log", "w")
+        p = subprocess.Popen(["timeout", str(timeout)] + cmd, cwd=SPEC, stdout=logf, stderr=subprocess.STDOUT, env=env)
+        return (p, job, meta, logf)
+
+    pending = list(jobs)
+    while pending or running:
+        while pending and len(running) < parallel:
+            running.append(start(pending.pop(0)))
+        p, job, meta, logf = running.pop(0)
+        rc = p.wait()
+        logf.close()
+        shutil.rmtree(meta, ignore_errors=True)
+        results.append((rc, job))
+    rejections = []
+    for rc, (sd, trace, prims) in results:
+        text = open(trace + ".tlc.log", errors="replace").read()
+        if rc == 124:
+            raise ToolError(f"[{tag}] trace validation timed out ({trace})")
+        unmatched = [l for l in text.splitlines() if l.startswith('"{') and "unmatched" in l]
+        if unmatched:
+            ev = json.loads(json.loads(unmatched[0]))
+            rejections.append({"seed": sd, "trace": trace, "index": ev["unmatched"], "event": ev["event"], "gen": gen, "n": n})
+        elif "Model checking completed. No error has been found." not in text:
+            errs = [l for l in text.splitlines() if l.startswith("Error")][:3]
+            raise ToolError(f"[{tag}] TLC failed on {trace}: {errs}")
+        else:
+            os.remove(trace)          # accepted traces are not kept (disk)
+            for extra in (prims, trace + ".primreq.json"):
+                if os.path.exists(extra):
+                    os.remove(extra)
+    log(f"[{tag}] {count} recorded traces, {total_events} events validated against Trace_Api.tla, {len(rejections)} rejected")
+    return total_events, rejections
+
+
+def describe_event(ev):
+    """A short human-readable rendering of a recorded event (for VIOLATION details)."""
+    def txt(cp):
+        return "".join(chr(c) for c in cp)
+    e = ev.get("event", ev)
+    parts = [e.get("ev", "?")]
+    if "src" in e:
+        parts.append(repr(txt(e["src"])))
+    if "n" in e and isinstance(e["n"], list):
+        parts.append(txt(e["n"]))
+    res = e.get("res")
+    if isinstance(res, dict):
+        if res.get("p") == "err":
+            parts.append("-> Err(" + res["e"]["e"] + ")")
+        elif res.get("p") == "panic":
+            parts.append("-> PANIC " + str(res.get("panic")))
+        else:
+            parts.append("-> " + res.get("p", ""))
+    return " ".join(parts)
+
+
+# ------------------------------------------------------------------------------------------------
 # known findings
 # ------------------------------------------------------------------------------------------------
 def load_known():
@@ -334,6 +425,22 @@ class Check:
         # failures beyond the stored ones still count
         total_rel = sum(v for k, v in summary["failure_checks"].items() if relevant is None or k in relevant)
         self.extra["deviations_total"] = self.extra.get("deviations_total", 0) + total_rel
+
+    def add_traces(self, tag, gen, n, count, check, note=None, timeout=900):
+        """Accounts a code->spec run: recorded traces validated by TLC against Trace_Api.tla."""
+        events, rejections = record_and_validate(tag, gen, n, count, self.outdir, timeout=timeout)
+        self.trace_events += events
+        self.evaluations += events
+        self.exhaustive = False if not self.runs else self.exhaustive
+        self.runs.append({"trace_generator": gen, "traces": count, "driver_steps_per_trace": n, "events_validated": events,
+                          "rejected": len(rejections), "note": note or ""})
+        self.cmds.append(f"harness record --gen {gen} --n {n} (x{count}) | tlc Trace_Api.tla (POSTCONDITION Accepted)")
+        for r in rejections:
+            self.add_failure({"check": check, "detail": f"recorded {gen} trace (seed {r['seed']}): event {r['index']} is not a behaviour the "
+                              f"specification allows: {describe_event(r)}", "case": {"kind": "trace", "gen": gen, "seed": r["seed"], "n": n,
+                                                                                  "index": r["index"], "event": r["event"]},
+                              "observed": None, "finding_key": None})
+        return events, rejections
 
     def add_failure(self, f):
         k = known_match(self.prop, f, self.findings)
